@@ -266,7 +266,9 @@ def r17a(ctx):
             continue
         S, E = rp
         want = lin_sub(lin(E), lin(S))
-        ups = updates(a)
+        # the planner step: the innermost loop around the call when the planner is an explicit loop, else the whole (per-term closure) body
+        lps_ = [lp for lp in a.cfg.loops().items() if c in lp[1]]
+        ups = updates(a, min(lps_, key=lambda l: len(l[1]))[1] if lps_ else None)
         plus = [u for u in ups if u[1] == 1]
         minus = [u for u in ups if u[1] == -1]
         # the file offset
@@ -293,7 +295,7 @@ def r17a(ctx):
                       'the budget decreases by end - start of the range handed to write_term',
                       'the remaining budget decreases by %s, not by the length of the range handed on: the requested byte range is over- or under-filled' % flow.show(u[2])[:80])
             reads_precede(ctx, 'R17a', a, u[0], u[3], 'the remaining budget')
-        other = [u for u in ups if u not in acc and u not in rem]
+        other = [u for u in ups if u not in acc and u not in rem and not (uncast(u[2])[0] == 'const')]
         ctx.check(not other, 'R17a', fn, 'other updates', a.loc(*other[0][3]) if other else '-', 'no other running value is updated in the planner step')
         first_term_only(ctx, 'R17a', a, S)
         # the term handed on is the closure's own term, the offset arithmetic uses its length
@@ -411,7 +413,7 @@ def r17c(ctx):
                       'the sequential writer reports %s, which is not the requested length its budget started from' % (flow.show(pay)[:60] if pay is not None else '?'))
             ctx.check(a.cfg.must_pass(b, via_blocks=[fl]), 'R17c', fn, 'flush before success', a.loc(fl), 'success is returned only after flush')
         ctx.check(len(oks) == 1, 'R17c', fn, 'success returns', '-', 'one success return')
-    other = [u for u in ups if u not in rem]
+    other = [u for u in ups if u not in rem and not (uncast(u[2])[0] == 'const')]
     ctx.check(not other, 'R17c', fn, 'other updates', a.loc(*other[0][3]) if other else '-', 'no other running value is updated in the term loop')
     first_term_only(ctx, 'R17c', a, S)
     ctx.check(any(any(isinstance(k, tuple) and k and k[0] in ('call', 'len') and 'len' in str(k[1]) for k in bd) for bd in bnds), 'R17c', fn, 'term bound', a.loc(wa), 'end is also bounded by the length of the term data')
@@ -432,16 +434,23 @@ def r17d(ctx):
     term_f = lambda z, *fs: _path(z) is not None and _path(z)[1] == tuple(fs) and is_term(_path(z)[0])
     # --- the fetch range selected
     finds = [c for c in a.calls() if sg(a.term(c).get('fn', '')).split('::')[-1] in ('find', 'position', 'find_map', 'filter') and len(a.term(c)['args']) == 2]
-    if ctx.check(len(finds) == 1, 'R17d', fn, 'fetch range selection', a.loc(finds[0]) if finds else '-', 'one search over the fetch ranges of the term\'s xorb'):
+    sf = a.calls('utils::singleflight::Group::work_dump_caller_info') or a.calls(RC + 'download_range')
+    if not ctx.check(len(sf) >= 1, 'R17d', fn, 'download', '-', 'the download call is identified'):
+        return
+    dl = sf[0]
+    isf_ = lambda z, f: _path(uncast(z)) is not None and _path(uncast(z))[1][-2:] == ('range', f) and not is_term(_path(uncast(z))[0])
+    ist_ = lambda z, f: (uncast(z)[0] == 'upvar' and uncast(z)[1] == 'term.range.' + f) or term_f(uncast(z), 'range', f)
+    def containment(x, where):
+        lo = edges_where(x, lambda op, l, r: (op == 'Le' and isf_(l, 'start') and ist_(r, 'start')) or (op == 'Ge' and ist_(l, 'start') and isf_(r, 'start')))
+        hi = edges_where(x, lambda op, l, r: (op == 'Ge' and isf_(l, 'end') and ist_(r, 'end')) or (op == 'Le' and ist_(l, 'end') and isf_(r, 'end')))
+        return lo, hi
+    if len(finds) == 1:
         fc = finds[0]
         cl = uncast(a.arg(fc, 1))
         cb = F.bodies.get(cl[2]) if cl[0] == 'agg' and cl[1] == 'closure' else None
         if ctx.check(cb is not None, 'R17d', fn, 'selection predicate', a.loc(fc), 'the predicate is a local closure'):
             ca = an(cb)
-            up = lambda z, nm: uncast(z)[0] == 'upvar' and uncast(z)[1] == nm
-            isf = lambda z, f: _path(uncast(z)) is not None and _path(uncast(z))[1] == ('range', f) and _path(uncast(z))[0][0] == 'param'
-            lo = edges_where(ca, lambda op, l, r: (op == 'Le' and isf(l, 'start') and up(r, 'term.range.start')) or (op == 'Ge' and up(l, 'term.range.start') and isf(r, 'start')))
-            hi = edges_where(ca, lambda op, l, r: (op == 'Ge' and isf(l, 'end') and up(r, 'term.range.end')) or (op == 'Le' and up(l, 'term.range.end') and isf(r, 'end')))
+            lo, hi = containment(ca, 'closure')
             trues = []
             for (b, si, k, e) in ca.ret_sites():
                 for (sb, ssi, se) in ca.flow.sources(e, (b, si)):
@@ -456,74 +465,91 @@ def r17d(ctx):
                 else:
                     # `a && b` evaluated without branching on the second operand: the returned value is the second comparison, reached behind the first
                     cmpv = _cmp_of(se)
-                    is_hi = cmpv is not None and _is_cmp(cmpv, 'Ge', lambda z: isf(z, 'end'), lambda z: up(z, 'term.range.end'))
-                    is_lo = cmpv is not None and _is_cmp(cmpv, 'Le', lambda z: isf(z, 'start'), lambda z: up(z, 'term.range.start'))
+                    is_hi = cmpv is not None and _is_cmp(cmpv, 'Ge', lambda z: isf_(z, 'end'), lambda z: ist_(z, 'end'))
+                    is_lo = cmpv is not None and _is_cmp(cmpv, 'Le', lambda z: isf_(z, 'start'), lambda z: ist_(z, 'start'))
                     okc = okc and ((is_hi and bool(lo) and ca.cfg.must_pass(b, via_edges=lo)) or (is_lo and bool(hi) and ca.cfg.must_pass(b, via_edges=hi)))
             ctx.check(okc, 'R17d', ca.path, 'containment', ca.loc(0), 'a fetch range is selected only if fetch.start <= term.start and fetch.end >= term.end',
                       'the fetch range is selected without establishing both fetch.range.start <= term.range.start and fetch.range.end >= term.range.end: a range that does not contain the term is trimmed at the wrong chunk offsets')
-    # --- the trim
-    sf = a.calls('utils::singleflight::Group::work_dump_caller_info') or a.calls(RC + 'download_range')
-    if not ctx.check(len(sf) >= 1, 'R17d', fn, 'download', '-', 'the download call is identified'):
+    else:
+        # an explicit scan: the download is reached only behind both containment edges
+        lo, hi = containment(a, 'loop')
+        ctx.check(not finds and bool(lo) and bool(hi) and a.cfg.must_pass(dl, via_edges=lo) and a.cfg.must_pass(dl, via_edges=hi), 'R17d', fn, 'containment', a.loc(dl),
+                  'the download is reached only behind fetch.start <= term.start and fetch.end >= term.end (explicit scan over the fetch ranges)',
+                  'cannot establish that the fetch range that is downloaded contains the term\'s chunk range (no single search with a containment predicate, no pair of containment edges before the download)')
+    # --- the trim: the byte offsets at which the data is cut
+    tr = a.calls('alloc::vec::Vec::truncate')
+    so = a.calls('alloc::vec::Vec::split_off') + a.calls('alloc::vec::Vec::drain')
+    cut_end = cut_start = None
+    muts = []
+    if len(tr) == 1 and len(so) == 1:
+        cut_end, cut_start, muts = a.arg(tr[0], 1), a.arg(so[0], 1), [tr[0], so[0]]
+    else:
+        sl = [c for c in a.calls('core::ops::index::Index::index') if range_parts(a.arg(c, 1)) and flow.mentions(a.arg(c, 0), lambda z: z[0] == 'call' and z[-1] == dl)]
+        if len(sl) == 1:
+            cut_start, cut_end = range_parts(a.arg(sl[0], 1))
+            muts = [sl[0]]
+    if not ctx.check(cut_end is not None, 'R17d', fn, 'trim', '-', 'the trim of the fetched data to the term is identified (truncate + split_off, or one slice)',
+                     'cannot establish how the fetched data is trimmed to the term (neither one truncate + one split_off nor one slice of the downloaded data)'):
         return
-    dl = sf[0]
-    idx = [c for c in a.calls('core::ops::index::Index::index') if a.rooted_at(a.arg(c, 0), dl)]
-    rel = {}
-    for c in idx:
-        i = uncast(a.arg(c, 1))
-        if i[0] == 'bin' and i[1] == 'Sub':
-            l, r = uncast(i[2]), uncast(i[3])
-            pl, pr = _path(l), _path(r)
-            if pl and pr and is_term(pl[0]) and pl[1] in (('range', 'start'), ('range', 'end')) and pr[1] == ('range', 'start') and not is_term(pr[0]) and a.root_call(pr[0]) is not None:
-                rel[pl[1][1]] = (c, pr[0])
-    ok = set(rel) == {'start', 'end'} and len(idx) == 2
-    ctx.check(ok, 'R17d', fn, 'trim indices', a.loc(idx[0]) if idx else '-',
-              'the chunk offset table is read at term.range.start - fetch.range.start and term.range.end - fetch.range.start (%d lookups)' % len(idx),
-              'the offset table of the fetched data is not read at exactly (term.range.start - fetch.range.start) and (term.range.end - fetch.range.start): %s' % '; '.join(flow.show(a.arg(c, 1))[:90] for c in idx))
-    ctx.floor('R17d', 'offset-table lookups for the trim', len(idx), 2)
+    def lookup(e):
+        """(table, which, fetch base) if e is TABLE[term.range.which - F.range.start]"""
+        e = _deref(e)
+        if e[0] != 'index':
+            return None
+        i = uncast(e[2])
+        if not (i[0] == 'bin' and i[1] == 'Sub'):
+            return None
+        pl, pr = _path(uncast(i[2])), _path(uncast(i[3]))
+        if pl and pr and is_term(pl[0]) and pl[1] in (('range', 'start'), ('range', 'end')) and pr[1][-2:] == ('range', 'start') and not is_term(pr[0]):
+            return e[1], pl[1][1], pr[0]
+        return None
+    le, ls = lookup(cut_end), lookup(cut_start)
+    ok = le is not None and ls is not None and le[1] == 'end' and ls[1] == 'start'
+    ctx.check(ok, 'R17d', fn, 'trim indices', a.loc(muts[0]),
+              'the data is cut at table[term.range.end - fetch.range.start] (end) and table[term.range.start - fetch.range.start] (start)',
+              'the data is not cut at the offsets looked up at (term.range.end - fetch.range.start) and (term.range.start - fetch.range.start): end cut %s, start cut %s' % (flow.show(cut_end)[-110:], flow.show(cut_start)[-110:]))
+    ctx.floor('R17d', 'byte cuts of the trim', 2 if cut_end is not None and cut_start is not None else 0, 2)
     if ok:
-        fr = rel['start'][1]
-        ctx.check(flow.eqv(_strip_sites(rel['end'][1]), _strip_sites(fr)) or _strip_sites(rel['end'][1]) == _strip_sites(fr), 'R17d', fn, 'same fetch range', a.loc(rel['end'][0]), 'both lookups are relative to the same fetch range')
-        ctx.check(bool(finds) and flow.mentions(fr, lambda z: z[0] == 'call' and z[-1] == finds[0]), 'R17d', fn, 'selected fetch range', a.loc(rel['start'][0]), 'that fetch range is the one the containment search selected')
-        tr = a.calls('alloc::vec::Vec::truncate')
-        so = a.calls('alloc::vec::Vec::split_off') + a.calls('alloc::vec::Vec::drain')
-        if tr and so:
-            t0, s0 = tr[0], so[0]
-            ctx.check(len(tr) == 1 and len(so) == 1 and _is_lookup(a, a.arg(t0, 1), rel['end'][0]) and _is_lookup(a, a.arg(s0, 1), rel['start'][0]), 'R17d', fn, 'cut offsets', a.loc(t0),
-                      'the data is cut at the end offset (truncate) and at the start offset (split_off) looked up above',
-                      'the data is truncated at %s and split at %s: not (end offset, start offset) of the term within the fetched data' % (flow.show(a.arg(t0, 1))[:60], flow.show(a.arg(s0, 1))[:60]))
+        fr = ls[2]
+        ctx.check(_strip_sites(le[2]) == _strip_sites(fr), 'R17d', fn, 'same fetch range', a.loc(muts[0]), 'both lookups are relative to the same fetch range')
+        tab_ok = all(flow.mentions(x[0], lambda z: z[0] == 'call' and z[-1] == dl) for x in (le, ls))
+        ctx.check(tab_ok, 'R17d', fn, 'offset table', a.loc(muts[0]), 'the offsets come from the table that was downloaded with the data')
+        # the fetch range the indices are relative to is the one that is downloaded
+        dlr = [c for c in a.calls(RC + 'download_range')]
+        same_dl = bool(dlr) and all(flow.mentions(a.arg(c, 1), lambda z: _strip_sites(z) == _strip_sites(fr)) for c in dlr)
+        ctx.check(same_dl, 'R17d', fn, 'selected fetch range', a.loc(dlr[0]) if dlr else '-', 'that fetch range is the one handed to download_range',
+                  'the trim is relative to %s, which is not the fetch range that is downloaded' % flow.show(fr)[-80:])
+        if finds:
+            ctx.check(flow.mentions(fr, lambda z: z[0] == 'call' and z[-1] == finds[0]), 'R17d', fn, 'searched fetch range', a.loc(finds[0]), 'and it is the one the containment search selected')
+        # the flight that downloads is keyed by the fetch range (its url), not by something coarser
+        for c in a.calls('utils::singleflight::Group::work_dump_caller_info', 'utils::singleflight::Group::work'):
+            ctx.check(flow.mentions(a.arg(c, 1), lambda z: _strip_sites(z) == _strip_sites(fr)), 'R17d', fn, 'flight key', a.loc(c),
+                      'concurrent downloads are merged only under a key taken from the fetch range that is downloaded',
+                      'the single-flight key (%s) is not derived from the fetch range that is downloaded: two terms of one xorb served by different fetch ranges join one flight and one of them receives the other range\'s bytes' % flow.show(a.arg(c, 1))[-90:])
+        if len(muts) == 2:
+            t0, s0 = muts
             ctx.check(a.cfg.must_pass(s0, via_blocks=[t0]) and t0 not in a.cfg.reach(list(a.cfg.succ[s0])), 'R17d', fn, 'cut order', a.loc(s0),
                       'the end cut is applied before the start cut (offsets are relative to the untrimmed data)',
                       'split_off(start) runs before truncate(end): after the front is removed the end offset no longer denotes the term\'s end — the term data is too long by start bytes')
-            muts = [t0, s0]
-        else:
-            # one slice data[start..end]
-            sl = [c for c in a.calls('core::ops::index::Index::index') if c not in idx and range_parts(a.arg(c, 1))]
-            good = [c for c in sl if _is_lookup(a, range_parts(a.arg(c, 1))[0], rel['start'][0]) and _is_lookup(a, range_parts(a.arg(c, 1))[1], rel['end'][0])]
-            ctx.check(len(good) == 1, 'R17d', fn, 'cut offsets', a.loc(sl[0]) if sl else '-', 'the data is sliced at [start offset .. end offset] looked up above',
-                      'cannot establish how the fetched data is trimmed to the term (neither truncate+split_off nor one slice by the looked-up offsets)')
-            muts = good
         # --- cache fill before the trim, with the fetched range
         puts = a.calls('chunk_cache::ChunkCache::put')
         for p in puts:
-            after = a.cfg.reach(list(a.cfg.succ[muts[0]])) if muts else set()
             later = [m for m in muts if p in a.cfg.reach(list(a.cfg.succ[m]))]
             ctx.check(not later, 'R17d', fn, 'cache fill before trim', a.loc(p), 'the cache is filled before the data is trimmed',
                       'the cache is filled after the data was trimmed to the term but under the whole fetched range: a later hit returns the wrong bytes')
-            rg = uncast(a.arg(p, 2))
-            while rg[0] in ('ref', 'deref'):
-                rg = rg[1]
+            rg = _deref(a.arg(p, 2))
             pr = _path(rg)
-            ctx.check(pr is not None and pr[1] == ('range',) and _strip_sites(pr[0]) == _strip_sites(fr), 'R17d', fn, 'cache fill range', a.loc(p),
-                      'the range stored with the data is the fetched range', 'the data is stored in the cache under %s, which is not the range that was fetched' % flow.show(rg)[:80])
-            kh = _key_hash(a.arg(p, 1))
+            ctx.check(pr is not None and pr[1][-1:] == ('range',) and _strip_sites(pr[0]) == _strip_sites(fr), 'R17d', fn, 'cache fill range', a.loc(p),
+                      'the range stored with the data is the fetched range', 'the data is stored in the cache under %s, which is not the range that was fetched' % flow.show(rg)[-80:])
+            kh = _key_hash(a, a.arg(p, 1))
             ctx.check(kh is not None and term_f(kh, 'hash'), 'R17d', fn, 'cache fill key', a.loc(p), 'the cache key is the term\'s xorb hash')
-            ctx.check(a.rooted_at(a.arg(p, 3), dl) and (a.rooted_at(a.arg(p, 4), dl) or uncast(a.arg(p, 4))[0] == 'local'), 'R17d', fn, 'cache fill data', a.loc(p), 'offsets and data stored are the downloaded ones')
+            ctx.check(flow.mentions(a.arg(p, 3), lambda z: z[0] == 'call' and z[-1] == dl) and (flow.mentions(a.arg(p, 4), lambda z: z[0] == 'call' and z[-1] == dl) or _deref(a.arg(p, 4))[0] == 'local'), 'R17d', fn, 'cache fill data', a.loc(p), 'offsets and data stored are the downloaded ones')
             ok_, det = propagation(a, p)
             ctx.check(ok_, 'R17d', fn, 'error of cache.put', a.loc(p), 'the error of cache.put is propagated (%s)' % det)
         ctx.floor('R17d', 'cache fill sites', len(puts), 1)
-        # the trim runs exactly when the ranges differ; skipping it needs term.range == fetch.range
+        # the trim is skipped only on term.range == fetch.range
         ne = [c for c in a.calls('core::cmp::PartialEq::ne', 'core::cmp::PartialEq::eq')]
-        ne = [c for c in ne if {_strip_sites(_deref(a.arg(c, 0))), _strip_sites(_deref(a.arg(c, 1)))} == {_strip_sites(('field', _term_atom(a), 'range')), _strip_sites(('field', fr, 'range'))}]
+        ne = [c for c in ne if {_strip_sites(_deref(a.arg(c, 0))), _strip_sites(_deref(a.arg(c, 1)))} == {_strip_sites(('field', ('upvar', 'term'), 'range')), _strip_sites(('field', fr, 'range'))}]
         ctx.check(len(ne) == 1, 'R17d', fn, 'trim condition', a.loc(ne[0]) if ne else '-', 'the trim is skipped only on term.range == fetch.range (compared as whole ranges)',
                   'cannot establish that the trim is skipped only when the term range equals the fetched range')
     # --- cold return behind the length check
@@ -541,7 +567,7 @@ def r17d(ctx):
     ctx.check(len(cold) >= 1, 'R17d', fn, 'cold return', '-', '%d cold success return(s)' % len(cold))
     # --- warm lookup
     for g in gets:
-        kh = _key_hash(a.arg(g, 1))
+        kh = _key_hash(a, a.arg(g, 1))
         rg = _deref(a.arg(g, 2))
         ctx.check(kh is not None and term_f(kh, 'hash') and term_f(uncast(rg), 'range'), 'R17d', fn, 'warm lookup', a.loc(g), 'the cache is asked for exactly (term.hash, term.range)',
                   'the cache lookup does not use (term.hash, term.range): %s / %s' % (flow.show(a.arg(g, 1))[:60], flow.show(rg)[:40]))
@@ -597,8 +623,12 @@ def _term_atom(a):
     return ('upvar', 'term')
 
 
-def _key_hash(e):
+def _key_hash(a, e):
     e = _deref(e)
+    if e[0] == 'local':
+        ss = a.flow.sources(e)
+        if len(ss) == 1:
+            e = _deref(ss[0][2])
     if e[0] == 'agg' and e[2].endswith('Key'):
         h = dict(e[3]).get('hash')
         if h is not None:
@@ -627,7 +657,10 @@ def r17e(ctx):
         # the requested total: the value assigned on both arms of `if let Some(range) = byte_range`
         cands = []
         for l in range(len(a.body['locals'])):
-            srcs = a.flow.sources(('local', l, a.flow.lname(l)))
+            accs = {u[0] for u in updates(a)}
+            srcs = a.flow.sources(('local', l, a.flow.lname(l)), stop=lambda z: z[0] == 'local' and ((z[2] or '_%d' % z[1]),) in accs)
+            if (a.flow.lname(l),) in accs:
+                continue
             if len(srcs) == 2:
                 ks = [_total_kind(a, F, e) for (_, _, e) in srcs]
                 if None not in ks:
@@ -641,6 +674,14 @@ def r17e(ctx):
 
 def _total_kind(a, F, e):
     e = uncast(e)
+    if e[0] == 'local':
+        # an accumulator: starts at 0 and only grows by a term's unpacked_length
+        key = (e[2] or '_%d' % e[1],)
+        ups = [u for u in updates(a) if u[0] == key]
+        inits = [a.flow.rvalue(d[3], 0) for d in a.flow.defs.get(e[1], []) if d[0] == 'assign' and not paths.additive_update(a, a.blocks[d[1]]['s'][d[2]])]
+        if ups and all(u[1] == 1 and flow.mentions(u[2], lambda z: z[0] == 'field' and z[-1] == 'unpacked_length') for u in ups) and len(inits) == 1 and uncast(inits[0])[:2] == ('const', 0):
+            return 'sum'
+        return None
     if e[0] == 'bin' and e[1] == 'Sub':
         l, r = _path(e[2]), _path(e[3])
         if l[1][-1:] == ('end',) and r[1][-1:] == ('start',) and _strip_sites(l[0]) == _strip_sites(r[0]):
